@@ -31,7 +31,7 @@ NSH = 16
 
 EDIT_NAMES = [
     "valid", "address_plus1", "address_minus1", "address_relative_to_body", "address_relative_to_first_payload", "stored_plus1_bytes_not_moved", "stored_minus1_bytes_not_moved",
-    "declared_exceeds_stored", "declared_equals_stored", "declared_one", "duplicate_tag_adjacent", "duplicate_tag_distant", "duplicate_tag_first_value_empty", "duplicate_tag_both_values_empty", "tag_length_past_description",
+    "declared_exceeds_stored", "declared_0x80000000", "declared_0xffffffff", "declared_0x80000000_plus_len", "stored_and_declared_top_bit_set", "stored_0xffffffff", "declared_equals_stored", "declared_one", "duplicate_tag_adjacent", "duplicate_tag_distant", "duplicate_tag_first_value_empty", "duplicate_tag_both_values_empty", "tag_length_past_description",
     "tag_without_length_byte", "description_length_plus1", "description_length_minus1", "entry_length_plus1", "entry_length_minus1", "entry_with_extra_byte_before_mac", "entry_extra_byte_after_mac_selfconsistent",
     "entry_mac_index_base0", "entry_mac_index_plus1", "entries_swapped_reindexed", "entries_swapped_not_reindexed", "payload_mac_bit_flip", "payload_mac_wrong_entry_mac_recomputed", "entry_mac_bit_flip",
     "payload_bit_flip", "stored_zero", "last_payload_cut_trailing_zero_mac_still_matches", "read_with_other_key", "directory_size_+1", "directory_size_-1",
